@@ -120,13 +120,13 @@ ADDENDA = {
  "C08": " Added later: deep descents with a first function and after a failed load, junk input at the deepest point; terminated sessions that client code unblocks by clearing TERMINATE in the stored record. Round 5: a first function that fails on one request of the session (defect found and fixed).",
  "C09": " One of the values is the byte 0xff (not valid UTF-8); the clone copies every scalar field the tree declares.",
  "C10": " Added later: SetLock(0,false) as a seal request, eng (the library's default language) as one of the two languages, keys handed over as slices with caller-owned bytes behind them, value buffers overwritten by the caller after the call, and keys of 251/252 bytes.",
- "C11": " Added later: listing on the Postgres backend, sessions whose ids contain each other (own listing exact), records copied with Get+Put, and three persister arrangements (one per session, one re-pointed with WithSession, store handle shared with code that selects USERDATA).",
+ "C11": " Added later: listing on the Postgres backend, sessions whose ids contain each other (own listing exact), records copied with Get+Put, and three persister arrangements (one per session, one re-pointed with WithSession, store handle shared with code that selects USERDATA). Round 6: two application-defined data types (64, 128; stored per session like state and user data) and session ids that differ from another id - or from the empty id - only by white space.",
  "C12": " Added later: every operation of the request is also answered once with an I/O error (refused; writes also as short writes) after which the request runs on - also with a flushing persister and a client that retries a failed Finish; and for every history the next start's read of the record fails once.",
  "C13": " Added later: Stop directly after an error inside the explicit transaction (may fail; if it reports success the transaction's writes are there). Round 5: the listing (Dump of the common prefix, drained or left after the first entry) and Abort without an explicit transaction are operations of the userdata variant's alphabet (thorough: length 5; the core alphabet without them: length 6); the '-after-earlier-stop' qualifier of the open findings is dropped for runs that leave that mode with Abort/Start before using it.",
  "C14": " Added later: every spelling of vm.NewLine's integer argument (empty, minimal, zero-padded).",
  "C15": " A panic raised in Vm.Run's own frame (opcode dispatch) counts as a decoding panic.",
- "C17": " Added later: an engine with persister kept for the session; the previous page fetched only after the refusal; an application-registered input format (and one that does not compile); every non-alphanumeric single byte; every input handed over in one reused read buffer; and the same question put to engine.Loop (over-long line in the middle of its input).",
- "C18": " Added later: translations for eng, a label shown as its own symbol by default but translated, DbResource over db/fs with translations stored as <symbol>_<code>, and an engine with a first function (its lookup language is checked like any other).",
+ "C17": " Added later: an engine with persister kept for the session; the previous page fetched only after the refusal; an application-registered input format (and one that does not compile); every non-alphanumeric single byte; every input handed over in one reused read buffer; and the same question put to engine.Loop (over-long line in the middle of its input). Round 6: inputs that begin like accepted input but are not valid UTF-8 must be refused.",
+ "C18": " Added later: translations for eng, a label shown as its own symbol by default but translated, DbResource over db/fs with translations stored as <symbol>_<code>, and an engine with a first function (its lookup language is checked like any other). Round 6: swh, a language that has an ISO 639-3 code only, among the switch answers and the translations.",
  "C19": " Added later: the library's MenuResource with per-session closures, a six-byte catch node, a template that fails after producing text, engines with a first function; built with the os shim so that the file operations of a save are scheduling points. Round 5: scenarios can give each session its own language (two sessions browsing a paginated page whose translated browse labels differ in length); and every session of every scenario is also served alone in a pristine process of its own, whose transcript must equal the one it gets in the long-running process that has served other sessions before (process-wide state that survives between sessions).",
  "C20": " Added later: a silent leaf, a function that sets TERMINATE and then fails, TERMINATE named in both flag lists, every output size 7..22, ResetOnEmptyInput with the empty input, and an engine with a first function.",
 }
